@@ -13,10 +13,10 @@
    tie's PNoWords, BadOracle -> FnRt's PBadOrder).  [words_ok ws]: every word is in 0..2^64-1.
    [D.cvm_single_halving_pass] = the F8 switch as read from the source (true: `if`, one pass).
 
-   PROVISO (why these are `partial`): it is not proved that the order [dorder] builds from a
-   [Some sv] oracle is always an enumeration of the buffer; the generated code checks the order it
-   is handed, so the statements are "equal to the model's run, or the machine stopped with
-   PBadOrder at an Add that carries an oracle".  Without oracles ([plain ops]) no proviso.
+   The order [dorder] decodes any oracle to is proved to be an enumeration of the buffer
+   (GenTie/DistinctSource.v, dorder_valid), so the order check of the generated code accepts it and
+   the statements are equalities for every oracle; an oracle the model rejects (BadOracle) is the
+   generated code's PBadOrder.
    STILL OUTSIDE: ChaCha8 and crypto/rand (the stream is an input), Go's int width for cap/Len,
    object identity of the map, the mutex, the expectation theorems (C19_unbiased, C19_real_bias: they
    live in the expectation monad, which no generated function is run in). *)
@@ -35,8 +35,7 @@ Theorem C19_step_is_source :
     DP.Inv T s -> words_ok ws ->
     (forall (s' : D.st T) (ws' : list Z),
        D.step T eqb D.cvm_single_halving_pass fuel cap s ws o = D.ROk s' ws' -> words_ok ws') /\
-    (gstep eqb (enc cap s ws) o = emb cap (D.step T eqb D.cvm_single_halving_pass fuel cap s ws o) \/
-     oracle_of o <> None /\ gstep eqb (enc cap s ws) o = Panic PBadOrder).
+    gstep eqb (enc cap s ws) o = emb cap (D.step T eqb D.cvm_single_halving_pass fuel cap s ws o).
 Proof. exact @step_is_source. Qed.
 Print Assumptions C19_step_is_source.
 
@@ -52,28 +51,11 @@ Theorem C19_history_source :
     words_ok (stream (seed_bytes crand_Read)) ->
     exists c0 : DN.Counter T (list Z),
       DN.NewCounter crand_Read stream size = Ok c0 /\
-      (grun_obs eqb c0 ops =
-       (fst (D.run_obs T eqb D.cvm_single_halving_pass fuel size (D.init T) (stream (seed_bytes crand_Read)) ops),
-        emb size (snd (D.run_obs T eqb D.cvm_single_halving_pass fuel size (D.init T) (stream (seed_bytes crand_Read)) ops))) \/
-       snd (grun_obs eqb c0 ops) = Panic PBadOrder).
-Proof. exact @history_source_new. Qed.
-Print Assumptions C19_history_source.
-
-(* the same without the proviso when no operation carries an oracle *)
-Theorem C19_history_source_plain :
-  forall (T : Type) (eqb : T -> T -> bool), (forall x y : T, eqb x y = true <-> x = y) ->
-  forall (crand_Read : list Z -> list Z * Z * bool) (stream : list Z -> list Z) (size : Z) (fuel : nat)
-         (ops : list (D.op T)),
-    seed_err crand_Read = false ->
-    words_ok (stream (seed_bytes crand_Read)) ->
-    plain ops ->
-    exists c0 : DN.Counter T (list Z),
-      DN.NewCounter crand_Read stream size = Ok c0 /\
       grun_obs eqb c0 ops =
       (fst (D.run_obs T eqb D.cvm_single_halving_pass fuel size (D.init T) (stream (seed_bytes crand_Read)) ops),
        emb size (snd (D.run_obs T eqb D.cvm_single_halving_pass fuel size (D.init T) (stream (seed_bytes crand_Read)) ops))).
-Proof. exact @history_source_new_plain. Qed.
-Print Assumptions C19_history_source_plain.
+Proof. exact @history_source_new. Qed.
+Print Assumptions C19_history_source.
 
 (* from any state satisfying the invariant (not only the constructor's) *)
 Theorem C19_history_source_inv :
@@ -82,8 +64,7 @@ Theorem C19_history_source_inv :
     DP.Inv T s -> words_ok ws ->
     grun_obs eqb (enc cap s ws) ops =
     (fst (D.run_obs T eqb D.cvm_single_halving_pass fuel cap s ws ops),
-     emb cap (snd (D.run_obs T eqb D.cvm_single_halving_pass fuel cap s ws ops))) \/
-    snd (grun_obs eqb (enc cap s ws) ops) = Panic PBadOrder.
+     emb cap (snd (D.run_obs T eqb D.cvm_single_halving_pass fuel cap s ws ops))).
 Proof. exact @history_source. Qed.
 Print Assumptions C19_history_source_inv.
 
@@ -105,8 +86,20 @@ Example C19_history_source_ex :
   end.
 Proof. vm_compute. split; reflexivity. Qed.
 
-(* the proviso is reachable: an oracle the model rejects stops the machine with PBadOrder, and an
-   exhausted stream with the tie's PNoWords *)
+(* the same history as a named statement of GenTie/DistinctSource.v (computation only, no tie used) *)
+Theorem C19_history_witness_source :
+  let ws := [D.maxu; 0; 5; 7] in
+  let ops := [D.OAdd 1 None; D.OAdd 2 None; D.OAdd 3 (Some [3]); D.OReset; D.OAdd 4 None] in
+  exists c0, @DN.NewCounter Z (list Z) (fun s => (s, 32, false)) (fun _ => ws) 2 = Ok c0 /\
+    grun_obs Z.eqb c0 ops =
+    ([(1, 1, 18446744073709551615, 0); (2, 4, 9223372036854775807, 1); (2, 8, 4611686018427387903, 2);
+      (0, 0, 18446744073709551615, 0); (1, 1, 18446744073709551615, 0)],
+     Ok (DN.mk_Counter (Some [(4, tt)]) 2 18446744073709551615 [7])).
+Proof. exact history_witness_source. Qed.
+Print Assumptions C19_history_witness_source.
+
+(* failures: an oracle the model rejects (7 is not in the buffer: BadOracle) stops the machine with
+   the generated order check's PBadOrder, an exhausted stream with the tie's PNoWords *)
 Example C19_history_source_stops_ex :
   let c0 := DN.mk_Counter (Some []) 2 18446744073709551615 [D.maxu; 0; 5] in
   snd (grun_obs Z.eqb c0 [D.OAdd 1 None; D.OAdd 2 (Some [7])]) = Panic PBadOrder /\
